@@ -199,8 +199,9 @@ def emit_coq(res: Result, path, extra_lines=()):
     L.append('].')
     L.append('Definition is_public : list bool := [' + '; '.join('true' if e.public else 'false' for e in res.entries) + '].')
     L.append('Definition n_explicit : list nat := [' + '; '.join(str(e.n_explicit) for e in res.entries) + '].')
+    L.append('Definition uninit_params : list (list nat) := [' + '; '.join('[' + ';'.join(str(k) for k, p in enumerate(e.params) if p == '@' + tables.UNINIT_ID) + ']' for e in res.entries) + '].')
     L.append('Definition ret_real : list nat := [' + '; '.join(str(e.vars['$ret']) for e in res.entries) + '].')
-    L.append('Definition shared_params : list (list nat) := [' + '; '.join('[' + ';'.join(str(i) for i, p in enumerate(e.params) if p.startswith('@')) + ']' for e in res.entries) + '].')
+    L.append('Definition shared_params : list (list nat) := [' + '; '.join('[' + ';'.join(str(i) for i, p in enumerate(e.params) if p.startswith('@') and p != '@' + tables.UNINIT_ID) + ']' for e in res.entries) + '].')
     L += list(extra_lines)
     with open(path, 'w') as fh:
         fh.write('\n'.join(L) + '\n')
